@@ -147,7 +147,7 @@ var baseInputs = []string{
 }
 
 // inputs for one pattern: the base pool plus strings derived from the literals in the pattern's syntax tree
-func inputsFor(re *syntax.Regexp, rng *rand.Rand) [][]byte {
+func inputsFor(re *syntax.Regexp, rng *rand.Rand, pool []string) [][]byte {
 	var out [][]byte
 	seen := map[string]bool{}
 	add := func(s string) {
@@ -157,6 +157,9 @@ func inputsFor(re *syntax.Regexp, rng *rand.Rand) [][]byte {
 		}
 	}
 	for _, s := range baseInputs {
+		add(s)
+	}
+	for _, s := range pool {
 		add(s)
 	}
 	var lits []string
@@ -180,6 +183,11 @@ func inputsFor(re *syntax.Regexp, rng *rand.Rand) [][]byte {
 		add(l + "\n")
 		add("\n" + l)
 		add("a\n" + l + "\nb")
+		// texts of several lines with the literal on the first / a middle / the last line, alone on its line and inside it:
+		// `.` stops at a newline, `^` / `$` (without flags) do not see one
+		for _, ml := range multiLine(l) {
+			add(ml)
+		}
 		add(strings.ToUpper(l))
 		add(strings.ToLower(l))
 		for _, v := range foldVariants(l) {
@@ -209,6 +217,82 @@ func inputsFor(re *syntax.Regexp, rng *rand.Rand) [][]byte {
 			sb.WriteString(frags[rng.Intn(len(frags))])
 		}
 		add(sb.String())
+	}
+	return out
+}
+
+func multiLine(l string) []string {
+	return []string{l + "\nz", "z\n" + l, "z\n" + l + "\nw", "x" + l + "y\nz", "z\nx" + l + "y", "z\nx" + l + "y\nw", "z\n" + l + "\n", "\n" + l + "\n", l + "\r\nz", "z\n\n" + l}
+}
+
+// anchoredAnyPatterns: an anchor next to a dot-star (in every spelling of either) around a literal -- `^.*foo` is "foo on the
+// FIRST line", `foo.*$` "foo on the LAST line" unless the flags say otherwise; a bare `.*foo.*` is plain containment. The full
+// product for one literal, the core of it under every flag prefix and for other literals.
+func anchoredAnyPatterns() []string {
+	begins := []string{`^`, `\A`, `(?m:^)`, ``}
+	ends := []string{`$`, `\z`, `(?m:$)`, ``}
+	anys := []string{`.*`, `(?s:.*)`, `.+`, `[^\n]*`, `.*?`, ``}
+	var out []string
+	for _, b := range begins {
+		for _, al := range anys {
+			for _, ar := range anys {
+				for _, e := range ends {
+					out = append(out, b+al+`foo`+ar+e)
+				}
+			}
+		}
+	}
+	core := func(lit string) (ps []string) {
+		for _, b := range []string{`^`, ``} {
+			for _, al := range []string{`.*`, ``} {
+				for _, ar := range []string{`.*`, ``} {
+					for _, e := range []string{`$`, ``} {
+						ps = append(ps, b+al+lit+ar+e)
+					}
+				}
+			}
+		}
+		return ps
+	}
+	for _, fl := range []string{`(?s)`, `(?m)`, `(?sm)`, `(?i)`, `(?U)`, `(?-s)`} {
+		for _, p := range core(`foo`) {
+			out = append(out, fl+p)
+		}
+	}
+	for _, lit := range []string{`\.go`, `f`, `"foo"`, `føö`, `(foo)`, `(?:foo)`, `fo\no`} {
+		out = append(out, core(lit)...)
+	}
+	// the same shapes one step away: two dot-stars, an anchor on the wrong side, a group around the anchored part
+	out = append(out, `^.*.*foo`, `foo.*.*$`, `^(?:.*foo)`, `(?:foo.*)$`, `(^.*)foo`, `foo(.*$)`, `^.*foo|bar`, `bar|foo.*$`, `.*^foo`, `foo$.*`, `^.*$`, `^.*`, `.*$`, `^.*\nfoo`, `foo\n.*$`)
+	return out
+}
+
+// metaLiteralPatterns: metacharacters in positions where they are LITERALS -- inside a bracket expression, inside \Q..\E,
+// behind a backslash -- next to real groups. Whoever reads a pattern as text (not as syntax) takes them for operators.
+func metaLiteralPatterns() []string {
+	var out []string
+	for _, m := range []string{"(", ")", "[", "]", "{", "}", "|", "*", "+", "?", ".", "^", "$", "-", ":", "\\", "<", ">", "!", "=", ","} {
+		e := regexp.QuoteMeta(m)
+		out = append(out, e, "["+e+"]", "["+m+"]", "[^"+e+"]", "^[^"+e+"]*$", "["+m+",]", "[a"+m+"]", "[^a"+m+"]+", `\Q`+m+`\E`, `x\Q`+m+`\Ey`, `\Q`+m,
+			"[[:alpha:]"+m+"]", "("+e+")", "(?:"+e+")", "["+e+"]+(a)", "(a)["+e+"]", "(["+e+"])",
+			// an escaped metacharacter under a quantifier / next to an anchor: `x\.*` does not end with a dot-star, `^\^` begins with one anchor
+			"x"+e+"*", e+"+y", "x"+e+"?y", "^"+e, e+"$", "^"+e+"$", ".*"+e+".*")
+	}
+	out = append(out, `[()]`, `^[^()]*$`, `[(][)]`, `[)(]`, `\Q(\E`, `\Q(a)\E`, `\Q()\E`, `\(a\)`, `(\()`, `[(](a)`, `(a)[)]`, `\\(a)`, `[\\(]`, `\Q\(\E`, `\Q(?:\E`, `[(?:)]`,
+		`[(?]`, `[(?i)]k`, `\Q(?i)\Ek`, `(?i)[(]k`, `[(](?i)k`, `([(])`, `[^(]*\(`, `\Q[\E(a)`, `[\Q(\E]`, `[(,]`, `[[:alpha:](]`, `^[^():?]*$`, `[(]*:`, `a[(]?b`,
+		`[|]`, `a[|]b`, `\Qa|b\E`, `a\|b`, `[*]+`, `\Qa*\E`, `[.]`, `\Q.\E`, `[$]$`, `^[\^]`, `\Q^a$\E`, `[{]1,2}`, `\Qa{2}\E`, `a\{2}`)
+	return out
+}
+
+// asciiPool: every printable ASCII character alone and inside a word, and strings in which punctuation decides
+func asciiPool(pat string) []string {
+	var out []string
+	for c := byte(0x20); c < 0x7f; c++ {
+		out = append(out, string([]byte{c}), "a"+string([]byte{c})+"b")
+	}
+	out = append(out, "(?:", "(?:)", "a:b", "why?", "T{k: 1}", "s[1:2]", "f(x)", "()", "(a)", "[(]", "a|b", "a*", "a{2}", "^a$", "x(y", "x)y", "aa", "\\(a)", "\\a", pat)
+	if len(pat) > 1 {
+		out = append(out, pat[1:], pat[:len(pat)-1])
 	}
 	return out
 }
@@ -369,7 +453,7 @@ func collectFold(re *syntax.Regexp) {
 	}
 }
 
-func observe(i int, pat string, rng *rand.Rand, withInputs bool) patObs {
+func observe(i int, pat string, rng *rand.Rand, withInputs bool, pool []string) patObs {
 	o := patObs{K: "pat", I: i, Pat: []byte(pat)}
 	defer func() {
 		if r := recover(); r != nil {
@@ -400,7 +484,7 @@ func observe(i int, pat string, rng *rand.Rand, withInputs bool) patObs {
 	if tm == nil || re == nil || !withInputs {
 		return o
 	}
-	o.Inputs = inputsFor(tree, rng)
+	o.Inputs = inputsFor(tree, rng, pool)
 	a, b, c := make([]bool, len(o.Inputs)), make([]bool, len(o.Inputs)), make([]bool, len(o.Inputs))
 	for k, in := range o.Inputs {
 		a[k] = tm.Match(in)
@@ -503,6 +587,12 @@ func main() {
 	}
 	pats = append(pats, cps...)
 	pats = append(pats, foldPatterns(rng, *nfold)...)
+	pats = append(pats, anchoredAnyPatterns()...)
+	isMeta := map[string]bool{}
+	for _, p := range metaLiteralPatterns() {
+		isMeta[p] = true
+		pats = append(pats, p)
+	}
 	for i := 0; i < *nrand; i++ {
 		pats = append(pats, randomPattern(rng, 3))
 	}
@@ -514,7 +604,11 @@ func main() {
 			continue
 		}
 		seen[p] = true
-		o := observe(i, p, rng, true)
+		var pool []string
+		if isMeta[p] {
+			pool = asciiPool(p)
+		}
+		o := observe(i, p, rng, true, pool)
 		enc.Encode(o)
 		// whatever textmatch answers with a rune predicate is compared with regexp on every rune
 		if o.Kind == "pred" || (*allClasses && isClassPat[p] && strings.HasPrefix(p, "^") && o.Kind != "regexp" && o.Kind != "") {
